@@ -322,4 +322,167 @@ theorem mrm_mergeHeapOf_post (d : Nat) (m : MMetaSlab (MTree r d)) (x : Option D
 
 end steps
 
+/-! ### `MergeOrRebalanceChildSlab`: what the heap holds afterwards -/
+
+section morPost
+variable {r : Nat}
+
+/-- the children of the parent as the call sees them: the updated child (passed by value) at `k`, the others as embedded -/
+def mrm_at {d : Nat} (m : MMetaSlab (MTree r d)) (child : MTree r d) (k j : Nat) : Option (MTree r d) :=
+  if j = k then some child else m.children[j]?
+
+/-- what `Ob_MergeOrRebalanceChildSlab_heapPost` needs of the heap before the call: what is below the updated child and
+    every OTHER child of the parent are held; the identifiers are pairwise distinct (the parent's is in no child's
+    subtree, the subtrees of different children are disjoint, a child's root identifier does not occur below it) -/
+structure mrm_MorHeld (s : MHSt r) (d : Nat) (m : MMetaSlab (MTree r d)) (child : MTree r d) (k : Nat) : Prop where
+  kidsChild : mrm_KidsHeld s.heap d child
+  others : ∀ j c, j ≠ k → m.children[j]? = some c → MHolds s.heap d c none
+  parent : ∀ j c, mrm_at m child k j = some c → m.hdr.id ∉ md_ids d c
+  disj : ∀ i j a b, i ≠ j → mrm_at m child k i = some a → mrm_at m child k j = some b → ∀ id ∈ md_ids d a, id ∉ md_ids d b
+  acyc : ∀ j c, mrm_at m child k j = some c → (MTree.hdr d c).id ∉ mrm_kidIds d c
+
+theorem mrm_pairR (s : MHSt r) (d : Nat) (m : MMetaSlab (MTree r d)) (child : MTree r d) (k : Nat) (y : MTree r d)
+    (hh : mrm_MorHeld s d m child k) (hy : m.children[k + 1]? = some y) : mrm_PairOK s d m child y k (k + 1) := by
+  have aK : mrm_at m child k k = some child := if_pos rfl
+  have aY : mrm_at m child k (k + 1) = some y := by simp only [mrm_at, if_neg (Nat.succ_ne_self k), hy]
+  have hne : k ≠ k + 1 := by omega
+  refine ⟨?_, ?_, ?_, hh.kidsChild, mrm_MHolds_kids _ d y none (hh.others (k + 1) y (Nat.succ_ne_self k) hy), ?_, ?_⟩
+  · intro e
+    exact hh.disj k (k + 1) child y hne aK aY _ (mrm_hid d child) (by rw [e]; exact mrm_hid d y)
+  · intro e; exact hh.parent k child aK (by rw [e]; exact mrm_hid d child)
+  · intro e; exact hh.parent (k + 1) y aY (by rw [e]; exact mrm_hid d y)
+  · intro id hid
+    rcases hid with hid | hid
+    · exact ⟨fun e => hh.acyc k child aK (e ▸ hid),
+        fun e => hh.disj k (k + 1) child y hne aK aY id (mrm_kid_sub d child id hid) (by rw [e]; exact mrm_hid d y),
+        fun e => hh.parent k child aK (e ▸ mrm_kid_sub d child id hid)⟩
+    · exact ⟨fun e => hh.disj (k + 1) k y child hne.symm aY aK id (mrm_kid_sub d y id hid)
+          (by rw [e]; exact mrm_hid d child),
+        fun e => hh.acyc (k + 1) y aY (e ▸ hid),
+        fun e => hh.parent (k + 1) y aY (e ▸ mrm_kid_sub d y id hid)⟩
+  · intro j c h1 h2 hj
+    have aJ : mrm_at m child k j = some c := by simp only [mrm_at, if_neg h1, hj]
+    exact ⟨hh.others j c h1 hj, fun id hid =>
+      ⟨fun e => hh.disj j k c child h1 aJ aK id hid (by rw [e]; exact mrm_hid d child),
+       fun e => hh.disj j (k + 1) c y h2 aJ aY id hid (by rw [e]; exact mrm_hid d y),
+       fun e => hh.parent j c aJ (e ▸ hid)⟩⟩
+
+theorem mrm_pairL (s : MHSt r) (d : Nat) (m : MMetaSlab (MTree r d)) (child : MTree r d) (k : Nat) (l : MTree r d)
+    (hh : mrm_MorHeld s d m child k) (hk0 : 0 < k) (hl : m.children[k - 1]? = some l) :
+    mrm_PairOK s d m l child (k - 1) k := by
+  have hne : k - 1 ≠ k := by omega
+  have aK : mrm_at m child k k = some child := if_pos rfl
+  have aL : mrm_at m child k (k - 1) = some l := by simp only [mrm_at, if_neg hne, hl]
+  refine ⟨?_, ?_, ?_, mrm_MHolds_kids _ d l none (hh.others (k - 1) l hne hl), hh.kidsChild, ?_, ?_⟩
+  · intro e
+    exact hh.disj (k - 1) k l child hne aL aK _ (mrm_hid d l) (by rw [e]; exact mrm_hid d child)
+  · intro e; exact hh.parent (k - 1) l aL (by rw [e]; exact mrm_hid d l)
+  · intro e; exact hh.parent k child aK (by rw [e]; exact mrm_hid d child)
+  · intro id hid
+    rcases hid with hid | hid
+    · exact ⟨fun e => hh.acyc (k - 1) l aL (e ▸ hid),
+        fun e => hh.disj (k - 1) k l child hne aL aK id (mrm_kid_sub d l id hid) (by rw [e]; exact mrm_hid d child),
+        fun e => hh.parent (k - 1) l aL (e ▸ mrm_kid_sub d l id hid)⟩
+    · exact ⟨fun e => hh.disj k (k - 1) child l hne.symm aK aL id (mrm_kid_sub d child id hid)
+          (by rw [e]; exact mrm_hid d l),
+        fun e => hh.acyc k child aK (e ▸ hid),
+        fun e => hh.parent k child aK (e ▸ mrm_kid_sub d child id hid)⟩
+  · intro j c h1 h2 hj
+    have aJ : mrm_at m child k j = some c := by simp only [mrm_at, if_neg h2, hj]
+    exact ⟨hh.others j c h2 hj, fun id hid =>
+      ⟨fun e => hh.disj j (k - 1) c l h1 aJ aL id hid (by rw [e]; exact mrm_hid d l),
+       fun e => hh.disj j k c child h2 aJ aK id hid (by rw [e]; exact mrm_hid d child),
+       fun e => hh.parent j c aJ (e ▸ hid)⟩⟩
+
+/-- the heap `s'` after the call, against the heap `s` before: the new parent `m'` is held under the parent identifier,
+    EVERY child of `m'` is held, every identifier that is neither the parent's, the child's nor a sibling's root
+    identifier is untouched -/
+def mrm_MorPost (s s' : MHSt r) (d : Nat) (m : MMetaSlab (MTree r d)) (x : Option DX) (child : MTree r d)
+    (m' : MMetaSlab (MTree r d)) : Prop :=
+  s'.heap m.hdr.id = some (.metaSlab (md_meta m' x)) ∧ (∀ c ∈ m'.children, MHolds s'.heap d c none) ∧
+  (∀ id, id ≠ m.hdr.id → id ≠ (MTree.hdr d child).id →
+    (∀ (j : Nat) (c : MTree r d), m.children[j]? = some c → id ≠ (MTree.hdr d c).id) → s'.heap id = s.heap id)
+
+variable (T : Nat) (d : Nat) (m : MMetaSlab (MTree r d)) (x : Option DX) (child : MTree r d) (k : Nat) (s : MHSt r)
+  (m' : MMetaSlab (MTree r d)) (c' : Ctx) (hh : mrm_MorHeld s d m child k)
+include hh
+
+theorem mrm_leafRebR (y : MTree r d) (hy : m.children[k + 1]? = some y)
+    (h : MMetaSlab.rebalanceChildren T m child y k (k + 1) true s.ctx = .ok (m', c')) :
+    mrm_MorPost s (mrm_rebHeapOf T d m x child y k (k + 1) true s) d m x child m' := by
+  have p := mrm_rebHeapOf_post T d m x child y k (k + 1) true s m' c' h (mrm_pairR s d m child k y hh hy)
+  exact ⟨p.1, p.2.1, fun id h1 h2 h3 => p.2.2 id h2 (h3 (k + 1) y hy) h1⟩
+
+theorem mrm_leafRebL (l : MTree r d) (hk0 : 0 < k) (hl : m.children[k - 1]? = some l)
+    (h : MMetaSlab.rebalanceChildren T m l child (k - 1) k false s.ctx = .ok (m', c')) :
+    mrm_MorPost s (mrm_rebHeapOf T d m x l child (k - 1) k false s) d m x child m' := by
+  have p := mrm_rebHeapOf_post T d m x l child (k - 1) k false s m' c' h (mrm_pairL s d m child k l hh hk0 hl)
+  exact ⟨p.1, p.2.1, fun id h1 h2 h3 => p.2.2 id (h3 (k - 1) l hl) h2 h1⟩
+
+theorem mrm_leafMrgR (y : MTree r d) (hy : m.children[k + 1]? = some y)
+    (h : (Except.ok (MMetaSlab.mergeChildren m child y k (k + 1) s.ctx) : Except MErr _) = .ok (m', c')) :
+    mrm_MorPost s (mrm_mergeHeapOf d m x child y k (k + 1) s) d m x child m' := by
+  have hm : (MMetaSlab.mergeChildren m child y k (k + 1) s.ctx).1 = m' := congrArg Prod.fst (Except.ok.inj h)
+  subst hm
+  have p := mrm_mergeHeapOf_post d m x child y k (k + 1) s (mrm_pairR s d m child k y hh hy)
+  exact ⟨p.1, p.2.1, fun id h1 h2 h3 => p.2.2.2 id h2 (h3 (k + 1) y hy) h1⟩
+
+theorem mrm_leafMrgL (l : MTree r d) (hk0 : 0 < k) (hl : m.children[k - 1]? = some l)
+    (h : (Except.ok (MMetaSlab.mergeChildren m l child (k - 1) k s.ctx) : Except MErr _) = .ok (m', c')) :
+    mrm_MorPost s (mrm_mergeHeapOf d m x l child (k - 1) k s) d m x child m' := by
+  have hm : (MMetaSlab.mergeChildren m l child (k - 1) k s.ctx).1 = m' := congrArg Prod.fst (Except.ok.inj h)
+  subst hm
+  have p := mrm_mergeHeapOf_post d m x l child (k - 1) k s (mrm_pairL s d m child k l hh hk0 hl)
+  exact ⟨p.1, p.2.1, fun id h1 h2 h3 => p.2.2.2 id (h3 (k - 1) l hl) h2 h1⟩
+
+/-- **the heap after `MergeOrRebalanceChildSlab`** (`mrm_morHeap`, the storage of `Ob_MergeOrRebalanceChildSlab_heap`), in
+    the model's `.ok (m', c')` case: it holds the new parent under the parent identifier and EVERY child of `m'`
+    (`MHolds`: the slab and everything below it), and leaves every identifier other than the parent's, the child's and
+    the siblings' root identifiers untouched - whichever branch of the 3 x 3 table is taken.
+    (The right operand's identifier of a merge is gone: `mrm_mergeHeapOf_post`.) -/
+theorem Ob_MergeOrRebalanceChildSlab_heapPost (u : Nat)
+    (h : MMetaSlab.mergeOrRebalanceChildSlab T m child k u s.ctx = .ok (m', c')) :
+    mrm_MorPost s (mrm_morHeap T d m x child k u s) d m x child m' := by
+  revert h
+  simp only [MMetaSlab.mergeOrRebalanceChildSlab, mrm_morHeap]
+  cases hl : (if k > 0 then m.children[k - 1]? else none) with
+  | none =>
+    cases hx : (if k + 1 < m.childHdrs.length then m.children[k + 1]? else none) with
+    | none => simp only [Bool.or_false, Bool.false_eq_true, if_false]; intro h; cases h
+    | some y =>
+      have hy : m.children[k + 1]? = some y := by
+        by_cases hk : k + 1 < m.childHdrs.length
+        · rw [if_pos hk] at hx; exact hx
+        · rw [if_neg hk] at hx; cases hx
+      simp only [Bool.false_or]
+      split
+      · exact mrm_leafRebR T d m x child k s m' c' hh y hy
+      · exact mrm_leafMrgR d m x child k s m' c' hh y hy
+  | some l =>
+    have hkl : 0 < k ∧ m.children[k - 1]? = some l := by
+      by_cases hk : k > 0
+      · rw [if_pos hk] at hl; exact ⟨hk, hl⟩
+      · rw [if_neg hk] at hl; cases hl
+    obtain ⟨hk0, hl'⟩ := hkl
+    cases hx : (if k + 1 < m.childHdrs.length then m.children[k + 1]? else none) with
+    | none =>
+      simp only [Bool.or_false]
+      split
+      · exact mrm_leafRebL T d m x child k s m' c' hh l hk0 hl'
+      · exact mrm_leafMrgL d m x child k s m' c' hh l hk0 hl'
+    | some y =>
+      have hy : m.children[k + 1]? = some y := by
+        by_cases hk : k + 1 < m.childHdrs.length
+        · rw [if_pos hk] at hx; exact hx
+        · rw [if_neg hk] at hx; cases hx
+      simp only []
+      repeat' split
+      all_goals first
+        | exact mrm_leafRebR T d m x child k s m' c' hh y hy
+        | exact mrm_leafMrgR d m x child k s m' c' hh y hy
+        | exact mrm_leafRebL T d m x child k s m' c' hh l hk0 hl'
+        | exact mrm_leafMrgL d m x child k s m' c' hh l hk0 hl'
+
+end morPost
+
 end Atree.TransEq
